@@ -50,6 +50,14 @@ CLAIMED.update({
    text="Valid encodings of every type are truncated at every boundary and have each word replaced by 20 hostile classes; three decode entry points; panics, child deaths (stack overflow, out of memory), allocation beyond 1 MiB + 4096*len(input) (exact re-measurement decides; gzip inputs exempt) and more than 5 s CPU per call are violations; a 60 s-CPU no-termination monitor ends a hung child.",
    note="trusted: runtime.ReadMemStats TotalAlloc as exact allocation measure, getrusage(RUSAGE_THREAD)", ref="6/C15"),
 })
+CLAIMED.update({
+ "C06": dict(level="exploration", technique="end-to-end trace monitoring: real client vs an independent conformant MTProto server over loopback TCP, corner values forced by scripting crypto/rand.Reader and choosing server draws, child process under the race detector",
+   text="Each case is one fresh key exchange against the reference server; every field named by the property is driven through its leading-zero corner (observed values are counted, not intentions); the oracle compares both sides' key, key id and salt, counts plaintext frames, requires the first encrypted request to be answered and checks the stored session.",
+   note="trusted: refserver handshake (written from core.telegram.org), ref/mtp; client draws are forceable only when drawn from crypto/rand", ref="6/C06"),
+ "C07": dict(level="fault_enumeration", technique="fault injection at run time: one tampered reply field per otherwise conformant exchange; observers: CreateConnection result under recover(), goroutine-dump stall detector, session path, server-side frame log",
+   text="Every comparison site x corruption kind (bit flips, random, the other nonce, zero), fingerprint lists, encrypted-answer corruptions, wrong new_nonce_hash1 and alternative constructors are injected one at a time; the exchange must end in an error, persist nothing and send no encrypted frame.",
+   note="trusted: refserver; a watchdog firing without the stall signature is inconclusive, not a violation", ref="6/C07"),
+})
 NOT_YET = {}
 
 def main():
